@@ -51,6 +51,11 @@ pub struct Case {
   cold: Option<usize>,
   policy: Policy,
   acts: Vec<Act>,
+  /// k > 0: the delay (or the distance of the instant) is `far_base(k)` longer:
+  /// 2^32 us, 2^32 ms, 2^32 s, 2^64 ns - where a truncating conversion would
+  /// wrap; the last one is never due in any run
+  #[serde(default)]
+  far: u8,
 }
 
 pub struct C07;
@@ -94,7 +99,8 @@ impl Scenario for C07 {
       });
     }
     let threads_flavour = rng.chance(1, 2);
-    serde_json::to_value(Case { op, threads_flavour, cold, policy: if rng.chance(1, 2) { Policy::Fifo } else { Policy::AnyReady }, acts }).unwrap()
+    let far = if !matches!(op, MOp::ObserveOn | MOp::SubscribeOn) && rng.chance(1, 15) { rng.range(1, 4) as u8 } else { 0 };
+    serde_json::to_value(Case { op, threads_flavour, cold, policy: if rng.chance(1, 2) { Policy::Fifo } else { Policy::AnyReady }, acts, far }).unwrap()
   }
 
   fn run(&self, case: &Value) -> Result<Outcome, String> {
@@ -108,15 +114,12 @@ impl Scenario for C07 {
     let mut hot_l = Subject::<'static, Val, E>::default();
     let mut hot_s = SubjectThreads::<Val, E>::default();
     let t_build = w.now();
+    let far = if case.far > 0 { far_base(case.far) } else { Duration::ZERO };
     let at_of = |off: i32| {
       let t = t_build as i64 + off as i64 * MS as i64;
-      if t >= 0 {
-        instant_at(t as u64)
-      } else {
-        base_instant() - Duration::from_nanos((-t) as u64)
-      }
+      (if t >= 0 { instant_at(t as u64) } else { base_instant() - Duration::from_nanos((-t) as u64) }) + far
     };
-    let ms = |d: u32| Duration::from_micros(d as u64 * 100);
+    let ms = |d: u32| far + Duration::from_micros(d as u64 * 100);
     let cold_items: Vec<Val> = (0..case.cold.unwrap_or(0)).map(|i| Val::I(i as i64 + 1)).collect();
     let _sub: Box<dyn std::any::Any> = if !case.threads_flavour {
       let src: rxrust::ops::box_it::BoxOp<'static, Val, E> = match case.cold {
@@ -149,15 +152,20 @@ impl Scenario for C07 {
     };
     let t_sub = w.now();
     // configured delay (ns) of an item produced at time t: delivery must not be before t + item_delay
-    let remaining = |off: i32| (off.max(0) as u64) * MS;
+    let far_ns = if case.far > 0 { sim_ns(far) } else { 0 };
+    // an instant `far` ahead of a moment up to 5 ms in the past is still ahead
+    let remaining = |off: i32| if case.far > 0 { (far_ns as i128 + off as i128 * MS as i128).clamp(0, NEVER as i128) as u64 } else { (off.max(0) as u64) * MS };
     let (item_delay, sub_delay) = match case.op {
       MOp::ObserveOn | MOp::SubscribeOn => (0, 0),
-      MOp::Delay(d) => (d as u64 * MS / 10, 0),
+      MOp::Delay(d) => ((d as u64 * MS / 10).saturating_add(far_ns), 0),
       MOp::DelayAt(off) => (remaining(off), 0),
-      MOp::DelaySubscription(d) => (0, d as u64 * MS / 10),
+      MOp::DelaySubscription(d) => (0, (d as u64 * MS / 10).saturating_add(far_ns)),
       MOp::DelaySubscriptionAt(off) => (0, remaining(off)),
     };
     let opname = format!("{:?}", case.op).split('(').next().unwrap().to_string();
+    if case.far > 4 || (case.far > 0 && matches!(case.op, MOp::ObserveOn | MOp::SubscribeOn)) {
+      return Err("bad shape".into());
+    }
     let site = format!("{}{} policy={:?}", opname, if case.threads_flavour { "_threads" } else { "" }, case.policy);
     let mut emitted: Vec<(Val, u64)> = cold_items.iter().map(|v| (v.clone(), t_sub)).collect();
     let mut terminal: Option<Ev> = if case.cold.is_some() { Some(Ev::Complete) } else { None };
@@ -187,12 +195,12 @@ impl Scenario for C07 {
           return;
         }
         let (_, t_emit) = &emitted[i];
-        let min = (*t_emit + item_delay).max(t_sub + sub_delay);
+        let min = t_emit.saturating_add(item_delay).max(t_sub.saturating_add(sub_delay));
         if r.t < min {
           *violation = Some(Violation {
             rule: "c07.early".into(),
             site: site.clone(),
-            detail: format!("`{}`: item {} produced at {}ms was delivered at {}ms, not before {}ms allowed (configured delay {}ms)", trace.trim(), fmt_ev(&r.ev), *t_emit as f64 / 1e6, r.t as f64 / 1e6, min as f64 / 1e6, (item_delay + sub_delay) / MS),
+            detail: format!("`{}`: item {} produced at {}ms was delivered at {}ms, not before {}ms allowed (configured delay {}ms)", trace.trim(), fmt_ev(&r.ev), *t_emit as f64 / 1e6, r.t as f64 / 1e6, min as f64 / 1e6, item_delay.saturating_add(sub_delay) / MS),
           });
           return;
         }
@@ -289,7 +297,8 @@ impl Scenario for C07 {
       }
       check(&emitted, &terminal, false, &trace, &mut violation);
     }
-    check(&emitted, &terminal, true, &trace, &mut violation);
+    // a delay of 2^64 ns is never due: idle is not the end of the story then
+    check(&emitted, &terminal, case.far != 4, &trace, &mut violation);
     let recs = log.records();
     let mut h = hash_str(&trace);
     for r in &recs {
@@ -321,7 +330,7 @@ pub fn check_def() -> PropertyCheck {
     id: "C07",
     scenarios: vec![Box::new(C07), Box::new(C07Feedback), Box::new(C07Threads)],
     runs: (300_000, 30_000_000),
-    rule: "case = operator (observe_on, delay d, delay_at, delay_subscription(_at), subscribe_on; local and _threads; d in {0,1,5,20}ms, instants before/at/after now) x hot timed source | cold source x executor policy (FIFO queue | any ready task may run next) x script of emit/complete/error/run-task-#k/advance/jump, then quiescence under the same policy; non-trivial = a run decision had >=2 ready tasks or the clock jumped over >=2 deadlines; thread case = observe_on_threads / delay_threads over a hot source driven by an emitting thread (<=6 emits / sleeps, then complete / error / nothing) against one pool worker that takes ready tasks in wake order, under a seeded lock-level schedule",
+    rule: "case = operator (observe_on, delay d, delay_at, delay_subscription(_at), subscribe_on; local and _threads; d in {0,1,5,20}ms and 1-2 s, one case in fifteen 2^32 us / 2^32 ms / 2^32 s / 2^64 ns longer; instants before/at/after now) x hot timed source | cold source x executor policy (FIFO queue | any ready task may run next) x script of emit/complete/error/run-task-#k/advance/jump, then quiescence under the same policy; non-trivial = a run decision had >=2 ready tasks or the clock jumped over >=2 deadlines; thread case = observe_on_threads / delay_threads over a hot source driven by an emitting thread (<=6 emits / sleeps, then complete / error / nothing) against one pool worker that takes ready tasks in wake order, under a seeded lock-level schedule",
     assumptions: vec!["the any-ready-task policy is the sequential abstraction of a multi-worker pool (tasks never run in parallel here; the thread-mode arm of C10 covers that)"],
   }
 }
